@@ -62,6 +62,8 @@ type Contract struct {
 	Ensures     []*Clause
 	Modifies    []*Clause
 	HasMod      bool
+	Stores      []*Clause // direct-store frame (own body only)
+	HasStores   bool
 	Loops       map[int]*LoopSpec
 	Folds       map[int]*FoldSpec
 	Trusted     string
@@ -487,6 +489,17 @@ func (cs *ContractSet) parseFile(fset *token.FileSet, f *ast.File, pkgPath, file
 						}
 						cur.Modifies = append(cur.Modifies, &Clause{Text: it, Line: l.line, File: fileName})
 					}
+				case "stores":
+					// stores <items>: a frame for the store instructions of this function's own body only
+					// (what its callees write is governed by modifies)
+					for _, it := range splitTop(rest, ",") {
+						it = strings.TrimSpace(it)
+						if it == "" || it == "nothing" {
+							continue
+						}
+						cur.Stores = append(cur.Stores, &Clause{Text: it, Line: l.line, File: fileName})
+					}
+					cur.HasStores = true
 				case "callsite":
 					// callsite <callee name> requires[name] <expr>: asserted at every call of that callee in this function
 					cn, r2 := cutWord(rest)
